@@ -1598,6 +1598,32 @@ def rule_r10(ctx) -> List[R.Inst]:
                 if isinstance(a, ast.Attribute) and isinstance(a.value, ast.Subscript) and unparse(a.value.value) == ev_list and \
                         isinstance(b, ast.Name) and b.id == q:
                     ahead = (idx_canon(a.value.slice), a.attr, type(o).__name__, c)
+    # the merge consumes BOTH sequences in ascending position: the note positions the outer loop runs over are sorted (they are
+    # collected in a set, whose iteration order is arbitrary) — an unsorted pass makes the running time jump back and forth
+    it = sweep.iter
+    if isinstance(it, ast.Name):
+        binds = [n for n in fn.node.body[:fn.node.body.index(sweep)] if
+                 (isinstance(n, ast.Assign) and any(isinstance(t_, ast.Name) and t_.id == it.id for t_ in n.targets)) or
+                 (isinstance(n, ast.Expr) and isinstance(n.value, ast.Call) and call_name(n.value) == "sort" and
+                  isinstance(n.value.func, ast.Attribute) and unparse(n.value.func.value) == it.id)]
+        last = binds[-1] if binds else None
+        lv = last.value if last is not None else None
+        asc = lv is not None and isinstance(lv, ast.Call) and call_name(lv) in ("sorted", "sort") and not any(
+            k_.arg == "reverse" and not (isinstance(k_.value, ast.Constant) and k_.value.value is False) for k_ in lv.keywords)
+        if asc:
+            insts.append(R.ok(rid, "sweep:positions-sorted", file, last.lineno, idiom=f"{it.id} = sorted(..) before the sweep"))
+        elif lv is not None and (isinstance(lv, (ast.Set, ast.SetComp, ast.ListComp, ast.List, ast.BinOp)) or
+                                 (isinstance(lv, ast.Call) and call_name(lv) in ("list", "set", "tuple", "frozenset"))):
+            insts.append(R.viol(rid, "sweep:positions-sorted", file, last.lineno,
+                                f"the sweep visits the note positions '{it.id}' in the order of '{unparse(lv)[:60]}', which is not sorted (a set "
+                                f"iterates in hash order): the tempo cursor only moves forward, so a position visited after a later one is "
+                                f"timed with tempo events that lie beyond it", construct=f"sweep over unsorted {it.id}"))
+        else:
+            insts.append(R.undec(rid, "sweep:positions-sorted", file, sweep.lineno, f"how '{it.id}' is ordered before the sweep was not recognised"))
+    elif isinstance(it, ast.Call) and call_name(it) == "sorted":
+        insts.append(R.ok(rid, "sweep:positions-sorted", file, sweep.lineno, idiom="for .. in sorted(..)"))
+    else:
+        insts.append(R.undec(rid, "sweep:positions-sorted", file, sweep.lineno, f"order of '{unparse(it)[:60]}' not recognised"))
     if ahead is None:
         insts.append(R.viol(rid, "sweep:look-ahead", file, wh.lineno,
                             f"the sweep does not compare the position of the next tempo event ({ev_list}[…].measure) with the current "
